@@ -625,7 +625,8 @@ def analyze(ctx, want):
     n = 0
     for p in ret_paths(paths):
         c = p.calls(r"FindMatchesImpl::<..>::advance_to$")
-        emp = [(cc, o) for cc, o in p.conds if cc[0] == "app" and re.search(r"Match::is_empty$", cc[1])]
+        emp = [(cc, o) for cc, o in p.conds if (cc[0] == "app" and re.search(r"Match::is_empty$", cc[1])) or
+               (cc[0] == "binop" and cc[1] == "Ge" and S.vstr(cc[2]).endswith("span.start") and S.vstr(cc[3]).endswith("span.end"))]
         if emp and emp[-1][1] is True:
             ob("C07.b", "advance_beyond_match:empty-match-no-advance", not c, "empty match: %d advance_to calls" % len(c), ab.loc())
             continue
